@@ -38,7 +38,7 @@ RULE = ("auditok.cmdline.main(argv) run in-process (its sleep shortened; no othe
         "file written; distinct = distinct (recording, argv).")
 ASSUMPTIONS = [
     "-a values are chosen so that a*rate is a whole number of samples (otherwise the tool legitimately counts durations in the reader's shorter block, see C09)",
-    "{timestamp} is wall-clock and not generated; plotting, echo, microphone and compressed formats need packages that are not installed",
+    "{timestamp} is wall-clock: templates using it are generated but only its shape is matched, not its value; plotting, echo, microphone and compressed formats need packages that are not installed",
     "%I/%i truncate in the implementation (8.03 s -> 8029): accepted, the statement only requires a whole-millisecond value the fields recompose to",
     "held means: held on the executions listed in coverage",
 ]
